@@ -68,6 +68,7 @@ def setup_loop(ex, npol, holder):
         env['h'] = z3.Real(f'h!{k}')
         env['x_length'] = z3.Real(f'x_length!{k}')
         holder['h_loop'] = env['h']
+        holder['xl_loop'] = env['x_length']
         holder['phase'] = 'head'
 
     def inv(ex_, env, ghost):
@@ -81,6 +82,14 @@ def setup_loop(ex, npol, holder):
         elif holder.get('phase') == 'body':
             for f in step_facts(ex_, al, [holder['h_loop']]):
                 ex_.assume(f)
+            # instances of exp(a)*exp(b) = exp(a+b) for the distance already covered and this step, also multiplied by the input energies
+            # (valid for all reals; they spare the solver the search for the product)
+            e = lambda t: uf('exp', -toreal(al) * t)
+            h0, x0 = toreal(holder['h_loop']), toreal(holder['xl_loop'])
+            ex_.assume(e(x0 - h0) * e(h0) == e(x0))
+            for r in range(npol):
+                E0 = toreal(opaque.sumsq(ex_, row(A0, npol, r)))
+                ex_.assume(E0 * e(x0 - h0) * e(h0) == E0 * e(x0))
         z = toreal(xl) - toreal(h)
         conj = []
         for r in range(npol):
@@ -176,17 +185,25 @@ def _mk_energy(npol):
                 continue
             ap = al / z3.RealVal(Fraction('4.343'))
             # steps on this path: the havoc'd loop step and (possibly) the final partial step of size L - x_length
-            hs = [holder.get('h_loop')] + [t for t in [v for (k, v) in []]]
-            xl = [c for c in p.ex.pc]            # (the tail step size is L - x_length with the havoc'd x_length)
-            tail = [L - v for v in [z3.Real(n_) for n_ in {str(d) for c in p.ex.pc if isz(c) for d in _consts(c) if str(d).startswith('x_length!')}]]
-            facts = step_facts(p.ex, ap, [h for h in hs if h is not None] + tail)
-            # instances of exp(a)*exp(b) = exp(a+b) that chain the applied distances: (x_length - h) + h, then + (L - x_length)
-            hl = holder.get('h_loop')
-            for xlv in [z3.Real(n_) for n_ in {str(d) for c in p.ex.pc if isz(c) for d in _consts(c) if str(d).startswith('x_length!')}]:
-                e = lambda t: uf('exp', -ap * t)
-                if hl is not None:
-                    facts.append(e(xlv - hl) * e(hl) == e(xlv))
+            # the havoc'd loop step h!k and distance x_length!k of *this* path (their names differ from path to path)
+            names = sorted({str(d) for c in p.ex.pc if isz(c) for d in _consts(c)})
+            hls = [z3.Real(n_) for n_ in names if n_.startswith('h!')]
+            xls = [z3.Real(n_) for n_ in names if n_.startswith('x_length!')]
+            tail = [L - v for v in xls]            # the tail step size is L - x_length with the havoc'd x_length
+            facts = step_facts(p.ex, ap, hls + tail)
+            # instances of exp(a)*exp(b) = exp(a+b) that chain the applied distances: (x_length - h) + h, then + (L - x_length),
+            # also multiplied by the input energy of each polarisation (valid for all reals; they spare the solver the search for the product)
+            e = lambda t: uf('exp', -ap * t)
+            for xlv in xls:
                 facts.append(e(xlv) * e(L - xlv) == e(L))
+                for hl in hls:
+                    facts.append(e(xlv - hl) * e(hl) == e(xlv))
+                for r in range(npol):
+                    E0 = toreal(opaque.sumsq(p.ex, row(x.f['signal'], npol, r)))
+                    facts.append(E0 * e(xlv) * e(L - xlv) == E0 * e(L))
+                    for hl in hls:
+                        facts.append(E0 * e(xlv - hl) * e(hl) == E0 * e(xlv))
+                        facts.append(E0 * e(xlv - hl) * e(hl) * e(L - xlv) == E0 * e(L))
             for r in range(npol):
                 yr, xr = row(y.f['signal'], npol, r), row(x.f['signal'], npol, r)
                 if opaque.find_app(p.ex, yr) is None:
